@@ -66,6 +66,10 @@ func init() {
 		}}
 }
 
+func init() {
+	Checks["C19"] = &Check{Level: "model_checking", Run: CheckC19, QuickBudget: 240, ThoroughBudget: 1500, ReplayOps: c19Replay}
+}
+
 // kReplay re-executes an operation-history counterexample of the K space.
 func kReplay(prop string) func(v *Viol) []string {
 	return func(v *Viol) []string {
